@@ -182,7 +182,7 @@ int main(int argc, char **argv)
                 board_case_reset(sched, npre, prefix);
             }
             PMPI_Barrier(MPI_COMM_WORLD);
-            shim_case_reset(fr == g_rank ? fn : 0, fc); shim_trace_on = trace_on; shim_race_case_reset();
+            shim_case_reset(fr == g_rank ? fn : 0, fc); shim_inj_view = (int)argi("injview", 0); shim_trace_on = trace_on; shim_race_case_reset();
             ledger_mark(); g_t0 = now_s(); g_rss0 = rss_kb();
             OUT("B %d %s\n", g_case, g_casename);
             continue;
